@@ -91,14 +91,16 @@ type outcome struct {
 	// -1: consumes the whole limit
 	gEVM  int64
 	fails bool
+	// refund: gas given back at the end; the execution itself needs gEVM + refund to be available
+	refund int64
 }
 
 var outcomes = []outcome{
-	{"transfer", func(x *world7) common.Address { return x.w.Eth[x.R] }, 100, 21000, false},
+	{"transfer", func(x *world7) common.Address { return x.w.Eth[x.R] }, 100, 21000, false, 0},
 	// PUSH1 PUSH1 SSTORE(cold, 1->0): 3+3+2100+2900 = 5006 ; refund min(4800, 26006/5) = 4800
-	{"sstore-clear-refund", func(x *world7) common.Address { return x.clearC }, 0, 21000 + 5006 - 4800, false},
-	{"revert", func(x *world7) common.Address { return x.revertC }, 0, 21000 + 6, true},
-	{"out-of-gas", func(x *world7) common.Address { return x.oogC }, 0, -1, true},
+	{"sstore-clear-refund", func(x *world7) common.Address { return x.clearC }, 0, 21000 + 5006 - 4800, false, 4800},
+	{"revert", func(x *world7) common.Address { return x.revertC }, 0, 21000 + 6, true, 0},
+	{"out-of-gas", func(x *world7) common.Address { return x.oogC }, 0, -1, true, 0},
 }
 
 func ceilMul(d sdk.Dec, n uint64) *big.Int {
@@ -220,7 +222,9 @@ func (x *world7) run(res *engine.Result, tier string, shard, n int, idx *int) {
 						res.Nontrivial[strings.Join(p, "|")] = true
 						// gas used
 						g := uint64(oc.gEVM + alGas)
-						if oc.gEVM < 0 || g > gas {
+						// the refund comes at the end: the limit must cover the gas before refunds
+						oog := oc.gEVM < 0 || uint64(oc.gEVM+oc.refund+alGas) > gas
+						if oog {
 							g = gas // ran out of gas: everything is consumed
 						}
 						want := g
@@ -242,7 +246,7 @@ func (x *world7) run(res *engine.Result, tier string, shard, n int, idx *int) {
 						}
 						wantPay := new(big.Int).Mul(peff, new(big.Int).SetUint64(want))
 						wantS := new(big.Int).Set(wantPay)
-						failed := oc.fails || g == gas && oc.gEVM+alGas > int64(gas)
+						failed := oc.fails || oog
 						moved := new(big.Int).Sub(postR, preR)
 						if !failed {
 							wantS.Add(wantS, big.NewInt(oc.val))
